@@ -112,23 +112,24 @@ pub fn ops_for_diff(diff: &str) -> Vec<Value> {
 }
 
 fn regex_entry(p: &str, texts: &BTreeSet<String>) -> Value {
+    // `mi[k]` is the outcome on the k-th text of the case's `regex_texts` (shared by all patterns)
     match regex::Regex::new(p) {
-        Err(_) => json!({"p": p, "ok": false, "m": []}),
+        Err(_) => json!({"p": p, "ok": false, "mi": []}),
         Ok(re) => {
             let m: Vec<Value> = texts
                 .iter()
                 .map(|t| match re.captures(t) {
-                    None => json!([t, null]),
+                    None => Value::Null,
                     Some(c) => {
                         let w = c.get(0).unwrap();
                         match c.name("value") {
-                            Some(v) => json!([t, [w.start(), w.end(), v.start(), v.end()]]),
-                            None => json!([t, [w.start(), w.end()]]),
+                            Some(v) => json!([w.start(), w.end(), v.start(), v.end()]),
+                            None => json!([w.start(), w.end()]),
                         }
                     }
                 })
                 .collect();
-            json!({"p": p, "ok": true, "m": m})
+            json!({"p": p, "ok": true, "mi": m})
         }
     }
 }
@@ -148,9 +149,15 @@ pub fn case_json(ctx: &mut Ctx, case: &Case) -> Value {
             if let Some(ext) = ext_for(ctx, path, &case.extra) {
                 let nodes = ts::nodes(&ext, &ctx.grammars, t);
                 // candidate contents: between the end of comment i and the start of comment j > i
+                // (a block's content starts after a comment holding a start tag and ends before one holding an end tag)
                 if !case.patterns.is_empty() {
+                    let has = |k: usize, needle: &str| t.get(nodes[k].0..nodes[k].1).map(|c| c.contains(needle)).unwrap_or(true);
+                    let starts: Vec<bool> = (0..nodes.len()).map(|k| has(k, "<block")).collect();
+                    let ends: Vec<bool> = (0..nodes.len()).map(|k| has(k, "</block")).collect();
                     for i in 0..nodes.len() {
+                        if !starts[i] { continue; }
                         for j in (i + 1)..nodes.len() {
+                            if !ends[j] { continue; }
                             if nodes[i].1 <= nodes[j].0 {
                                 let content = &t[nodes[i].1..nodes[j].0];
                                 texts.insert(content.to_string());
@@ -171,7 +178,7 @@ pub fn case_json(ctx: &mut Ctx, case: &Case) -> Value {
     let mut j = json!({
         "op": "pipeline", "files": files, "walk": case.walk, "allow": case.allow, "ignore": case.ignore,
         "scan": case.scan, "extra": case.extra, "enabled": case.enabled, "disabled": case.disabled,
-        "regex": regex, "async": case.asyncs, "meta": case.meta,
+        "regex": regex, "regex_texts": texts.iter().collect::<Vec<_>>(), "async": case.asyncs, "meta": case.meta,
     });
     if let Some(d) = &case.diff {
         j["diff"] = json!(d);
